@@ -47,7 +47,7 @@ def render(payloads, layout, tif='none', recno_start=0, fileno=7):
         if p['fn']:
             out += struct.pack('>H', fileno)
         if p['ck']:
-            out += b'\xab\xcd'
+            out += bytes([(n_pr * 29 + 7) & 0xFF, (n_pr * 13 + 99) & 0xFF])      # the checksum value is not verified by the reader: any bytes (by record ordinal, so TIF and plain renderings agree)
         n_pr += 1
         off += n
         if p['last']:
